@@ -1,0 +1,100 @@
+//go:build verif
+
+// Real links with BFD sessions on a dataplane built by VerifNewDataPlane, for the check that no
+// traffic is sent over links that BFD declares down. Add-only; nothing here changes behaviour.
+
+package router
+
+import (
+	"fmt"
+	"net/netip"
+
+	"github.com/scionproto/scion/pkg/addr"
+	"github.com/scionproto/scion/pkg/private/ptr"
+	"github.com/scionproto/scion/pkg/segment/iface"
+	"github.com/scionproto/scion/router/control"
+)
+
+// Underlay addresses used by VerifUseRealLinks.
+const VerifBFDInternalAddr = "10.255.0.1:30042"
+
+// VerifBFDExternalAddrs returns the local and remote underlay address of the external link of
+// interface ifID as configured by VerifUseRealLinks.
+func VerifBFDExternalAddrs(ifID uint16) (local, remote string) {
+	return fmt.Sprintf("10.%d.%d.1:50000", ifID>>8, ifID&0xff),
+		fmt.Sprintf("10.%d.%d.2:50000", ifID>>8, ifID&0xff)
+}
+
+// VerifBFDSiblingAddr returns the underlay address of sibling router k.
+func VerifBFDSiblingAddr(k int) string {
+	return fmt.Sprintf("192.168.%d.%d:30042", k>>8, k&0xff)
+}
+
+// VerifUseRealLinks replaces the fake external and sibling links of a dataplane built by
+// VerifNewDataPlane(c) by links of the underlay provider prov (the "udpip" provider with an
+// injected ConnOpener, see VerifNewUnderlay), created through the dataplane's own configuration
+// calls AddExternalInterface / AddNextHop. bfd gives the BFD configuration by link id (0 <
+// interface id < VerifSiblingBase: external link; VerifSiblingBase+k: link to sibling router k);
+// a link that is not listed is configured with BFD disabled. The links then carry the sessions
+// that newExternalInterfaceBFD / newNextHopBFD attach to them (none when BFD is disabled) and
+// answer IsUp with the provider's own code. The internal link stays the fake one. Sessions are
+// not started.
+func (v *VerifDataPlane) VerifUseRealLinks(
+	c VerifConfig, prov UnderlayProvider, bfd map[int]control.BFD,
+) error {
+	d := v.dp
+	d.underlays["udpip"] = prov
+	// Sibling links may share the provider's internal connection; it has to exist first.
+	if _, err := prov.NewInternalLink(VerifBFDInternalAddr, d.RunConfig.BatchSize, nil); err != nil {
+		return err
+	}
+	d.setStopping()
+	defer d.setRunning()
+	host := func(s string) addr.Host { return addr.HostIP(netip.MustParseAddrPort(s).Addr()) }
+	for _, i := range c.Ifaces {
+		id := int(i.IfID)
+		if i.Sibling != 0 {
+			id = VerifSiblingBase + i.Sibling
+		}
+		b, ok := bfd[id]
+		if !ok {
+			b = control.BFD{Disable: ptr.To(true)}
+		}
+		if b.Disable == nil {
+			b.Disable = ptr.To(false)
+		}
+		old := d.interfaces[i.IfID]
+		d.interfaces[i.IfID] = nil
+		d.numInterfaces--
+		var err error
+		if i.Sibling == 0 {
+			l, r := VerifBFDExternalAddrs(i.IfID)
+			err = d.AddExternalInterface(i.IfID, control.LinkInfo{
+				Provider: "udpip",
+				Local:    control.LinkEnd{IA: c.LocalIA, Addr: l, IfID: iface.ID(i.IfID)},
+				Remote:   control.LinkEnd{IA: i.Neighbor, Addr: r},
+				BFD:      b,
+				LinkTo:   i.LinkTo,
+			}, host(l), host(r))
+		} else {
+			r := VerifBFDSiblingAddr(i.Sibling)
+			err = d.AddNextHop(i.IfID, control.LinkInfo{
+				Provider: "udpip",
+				Local:    control.LinkEnd{IA: c.LocalIA, Addr: VerifBFDInternalAddr},
+				Remote:   control.LinkEnd{IA: c.LocalIA, Addr: r},
+				BFD:      b,
+				LinkTo:   i.LinkTo,
+				Instance: fmt.Sprintf("br-sibling-%d", i.Sibling),
+			}, host(VerifBFDInternalAddr), host(r))
+		}
+		if err != nil {
+			return err
+		}
+		if old != nil {
+			delete(v.ids, old)
+		}
+		v.Links[id] = d.interfaces[i.IfID]
+		v.ids[d.interfaces[i.IfID]] = id
+	}
+	return nil
+}
